@@ -135,18 +135,16 @@ def check_signal(ctx: Ctx):
     si = stmt_index(hv)
     # condition shape
     cond_ok = False
-    for test, pol in si.guards(raises[0]):
-        for n in ast.walk(test):
-            cp = compare_parts(n) if isinstance(n, ast.Compare) else None
-            if cp and isinstance(cp[1], ast.Gt):
-                l, r = U(cp[0]), U(cp[2])
-                import re
+    import re
+    from ..astutil import canon_tests
 
-                ml = re.fullmatch(r"(\w+)\[(\d+)\]\.stop", l)
-                mr = re.fullmatch(r"(\w+)\.shape\[(\d+)\]", r)
-                if ml and mr:
-                    cond_ok = ml.group(2) == mr.group(2)
-                    axes = (ml.group(2), mr.group(2))
+    for test, pol in si.effective_guards(raises[0]):
+        ex = hv.expand(test, raises[0], allow_mutated=True)
+        for txt, p in canon_tests(ex, pol):
+            # canonical spelling of `cluster[k].stop > grid.shape[k]` is `grid.shape[k] < cluster[k].stop`
+            mm = re.fullmatch(r"(\w+)\.shape\[(\d+)\] < (.+)\[(\d+)\]\.stop", txt)
+            if mm and p:
+                cond_ok = mm.group(2) == mm.group(4)
     ctx.decide(cond_ok, "SIGNAL", site + ":condition", (helper, raises[0]),
                "signal is raised only when a cluster is longer than the grid along the same axis (impossible for an image of the grid's own shape)",
                "the spanning-droplet test compares the cluster extent along one axis with the grid size along another axis: an ordinary droplet on an unpadded image can trigger the internal signal, which escapes locate_droplets as a RuntimeError")
